@@ -18,6 +18,9 @@ PROFILES = {
                                                 dict(id="t1", kind="trx", parent="none", origin="n4")]),
     "chain": ('{"v1","v2"}', "KC", "PC", "OCa", [dict(id="v1", kind="vrx", parent="none", origin="n1"),
                                                  dict(id="v2", kind="vrx", parent="v1", origin="n1")]),
+    # trace validation only: a series of vertices accepted at n1 while its gossip loops are stalled
+    "burst": (None, None, None, None, [dict(id="b%02d" % i, kind="vrx", parent="none" if i == 1 else "b%02d" % (i - 1), origin="n1")
+                                       for i in range(1, 25)]),
 }
 
 NODES = {2: ["n1", "n2"], 3: ["n1", "n2", "n3"], 4: ["n1", "n2", "n3", "n4"]}
@@ -124,6 +127,10 @@ def directed(prop):
         out.append(dict(nodes=NODES[3], peers=tri, bad=[], items=one, drain=True, profile="one",
                         ops=[{"op": "originate", "i": "v1"}, {"op": "receive", "f": "n1", "t": "n2", "i": "v1"},
                              {"op": "receive", "f": "n1", "t": "n2", "i": "v1"}]))
+        # more vertices than the pipe between ledger and gossip loop holds, accepted while the loop is stalled
+        burst = PROFILES["burst"][4]
+        out.append(dict(nodes=NODES[2], peers={"n1": ["n2"], "n2": ["n1"]}, bad=[], items=burst, drain=True, profile="burst",
+                        ops=[{"op": "burst", "n": "n1", "is": [it["id"] for it in burst]}]))
     else:
         # an honest signature lifted from ANOTHER item: n1 signs v1; the adversary n3 replays that entry in the list of
         # t1 (originated at n4) towards n2, whose only honest way to n1 ... is n2 itself: n1 must still get t1
